@@ -1,3 +1,4 @@
+import AsyncVerif.Impl.Aggregations
 import AsyncVerif.Proofs.Core
 import AsyncVerif.Proofs.TwinMore
 /-!
@@ -72,6 +73,11 @@ theorem C05_iter_sentinel (f : Nat) (sentinel : Val) (fuel : Nat) :
 theorem C05_cycle (s fuel : Nat) : Twin (Impl.cycle s fuel) (Std.cycle s fuel) := by
   unfold Impl.cycle Std.cycle
   exact twin_bind_visOnly (fun w => tryFinally_quiet _ _ (closeSrc_quiet s) w) (fun buf => visOnly_replay buf fuel [])
+
+/-- `merge`: asyncstdlib's merge is heapq's algorithm inside `try … finally` closing every iterator -/
+theorem C05_merge (fn : Option Nat) (reverse : Bool) (srcs : List Nat) (fuel : Nat) :
+    Twin (Impl.merge fn reverse srcs fuel) (Std.merge fn reverse srcs fuel) :=
+  tryFinally_twin _ _ (closeAll_quiet srcs)
 
 theorem C05_all (s fuel : Nat) : Twin (Impl.all s fuel) (Std.allLoop s fuel) := scopedIter_twin s _
 theorem C05_any (s fuel : Nat) : Twin (Impl.any s fuel) (Std.anyLoop s fuel) := scopedIter_twin s _
